@@ -165,9 +165,21 @@ SeqAll(rs) == IF rs = <<>> THEN Ok({}, "", {})
 \* fl: flatten_mapping has already been over this mapping and has retagged its '=' keys as strings, in place.
 \* The text of a scalar is good ("g") for the type of the tag it was written under; handed to the converter of another
 \* type through the '=' indirection the model makes no prediction ("u").
+\* the concrete good texts of the harness: bool "yes"/"true", int "12"/"7"/"8", float "1.5"/"2.5", timestamp
+\* "2001-01-01", complex "1+2j", everything else a text no converter accepts; base64 decoding of foreign text: no prediction
+IntLike == {"int", "py/int", "py/long"}
+FloatLike == {"float", "py/float"}
+CrossText(fn, src) ==
+  CASE fn \in {"bool", "py/bool"} -> IF src \in {"bool", "py/bool"} THEN "g" ELSE "b"
+    [] fn \in IntLike -> IF src \in IntLike THEN "g" ELSE "b"
+    [] fn \in FloatLike -> IF src \in IntLike \cup FloatLike THEN "g" ELSE "b"
+    [] fn = "py/complex" -> IF src \in IntLike \cup FloatLike \cup {"py/complex"} THEN "g" ELSE "b"
+    [] fn = "timestamp" -> IF src = "timestamp" THEN "g" ELSE "b"
+    [] fn \in {"binary", "py/bytes"} -> IF src \in {"binary", "py/bytes"} THEN "g" ELSE "u"
+    [] OTHER -> "g"
 RECURSIVE ScalarOf(_, _, _, _)
 ScalarOf(c, h, nd, fn) ==
-  IF nd.k = "s" THEN [ok |-> TRUE, v |-> IF nd.v = "g" /\ nd.t.b # fn THEN "u" ELSE nd.v]
+  IF nd.k = "s" THEN [ok |-> TRUE, v |-> IF nd.v = "g" /\ nd.t.b # fn THEN CrossText(fn, nd.t.b) ELSE nd.v]
   ELSE IF nd.k = "m" /\ c # "Base" /\ ~nd.fl THEN
        LET vs == SelectSeq(nd.e, LAMBDA en : NodeOfC(c, h, en.k).t.b = "value") IN
        IF vs = <<>> THEN [ok |-> FALSE, v |-> ""] ELSE ScalarOf(c, h, NodeOfC(c, h, vs[1].v), fn)
@@ -244,7 +256,7 @@ ConPairs(c, h, elems) ==
                       IF rest.st # "ok" THEN After(kr, After(vr, rest))
                       ELSE [Both(Both(kr, vr, ""), rest, "") EXCEPT !.ty = @ \cup {"pair"}]
 
-NoPrediction == R("unknown", "", {}, "", {}, {}, {})
+NoPrediction == R("unknown", "", {}, "", {}, {}, {})      \* composes like a failure: visits so far are kept
 Conv(okType, sc, good) ==      \* a scalar converter: construct_scalar, then the conversion
   IF ~sc.ok THEN Err({}) ELSE IF sc.v = "u" THEN NoPrediction ELSE IF sc.v \in good THEN Ok({okType}, okType, {}) ELSE Fail("ValueError", {})
 
@@ -350,7 +362,7 @@ Spec == Init /\ [][Next]_vars
 \* rejected.  H demands rejection there too; Undispatched only names that case class: every offending node is one
 \* the construction never visited (whatever else happened to the load: it satisfies H once the offending nodes are
 \* left out of account).
-Undispatched(c) == req[c].mustErr /\ lval[c].st # "unknown" /\ req[c].off \cap lval[c].vis = {}
+Undispatched(c) == req[c].mustErr /\ req[c].off \cap lval[c].vis = {}
 Confined == \A c \in {"Base", "Safe", "Full"} :
               \/ lval[c].st = "unknown" \/ Sat(lval[c], req[c])
               \/ (Undispatched(c) /\ Sat(lval[c], [req[c] EXCEPT !.mustErr = FALSE]))
